@@ -25,6 +25,20 @@ CHECKS = {
              "and counts concrete at API level (raw-column obligation covers them symbolically).",
         technique="CrossHair symbolic execution (z3) of real wn._add/_queries/_core over an executable SQL model",
         ref='4 C01'),
+    'C02': dict(
+        text="Bounded symbolic model checking of the real wn.lmf writer and reader: a resource in the "
+             "loader normal form (rich skeleton, with and without an extension, every optional part "
+             "behind presence bits) whose attribute values are symbolic strings is written by the real "
+             "_dump_* / _build_* functions, fed through a tree-to-event bridge into the real expat "
+             "handler closures and _validate, and must come back equal (modulo the normal form) in each "
+             "version 1.0-1.3; dumping the result again must give the same element trees. Escaping "
+             "(ElementTree attribute/text escapers, quoteattr) is proved against a reference un-escaper "
+             "for all short strings; the <Lexicon> start tag is parsed from the real output text.",
+        note=NOTE_COMMON + "expat/ElementTree byte framing is replaced by vf/lmfbridge.py (stub contract "
+             "stated there); texts and lexicon-level attribute values come from pools with XML-special "
+             "characters, tabs and newlines; xml:space=preserve documents are outside.",
+        technique="CrossHair symbolic execution (z3) of the real LMF writer and reader joined by an event bridge",
+        ref='4 C02'),
     'C04': dict(
         text="Bounded symbolic model checking of scoping: (a) containment - every entity met in a two-step "
              "walk over the public API of Wordnet(lexicon, expand) belongs to the selection (or, in default "
